@@ -93,6 +93,12 @@ def run(ctx):
                      a=dict(writes=[20000], shutdown=True), b=dict(writes=[], shutdown=True, rcvbuf=rb, read_start_ms=400),
                      b2a=dict(rules=[dict(kind='ack', nth=k, act='drop')]), tag='zerowin-rb%d-dropack%d' % (rb, k))
             scs.append(s)
+    # ---- the peer half-closes first, then more data is owed to it than its window takes while its application reads late
+    for k, (rb, tot) in enumerate([(2000, 20000), (4096, 30000), (1000, 5000)][:ctx.pick(2, 3)]):
+        scs.append(dict(v=4, mtu=1500, sack=True, cc='', deadline_ms=45000, seed=k + 1, flags={}, tag='halfclose-then-big-%d' % k,
+                        a=dict(writes=[], shutdown=True, rcvbuf=rb, read_start_ms=600), b=dict(writes=[tot], shutdown=True)))
+        scs.append(dict(v=4, mtu=1500, sack=True, cc='', deadline_ms=45000, seed=k + 1, flags={}, tag='big-then-halfclose-%d' % k,
+                        a=dict(writes=[tot], shutdown=True), b=dict(writes=[], shutdown=True, rcvbuf=rb, read_start_ms=600)))
     # ---- the replay script of known finding F1: every window-bearing pure ACK of the receiver is lost after the window closed
     scs.append(dict(v=4, mtu=1500, sack=True, cc='', deadline_ms=30000, seed=1, flags={}, tag='f1-replay',
                     a=dict(writes=[20000], shutdown=True), b=dict(writes=[], shutdown=True, rcvbuf=2000, read_start_ms=1500),
